@@ -684,3 +684,29 @@ func LongGlyph(t *sim.Tape) *type1.Glyph {
 	g.ClosePath()
 	return g
 }
+
+// CaseVariantFont returns a font file whose FontInfo dictionary also holds
+// entries whose keys differ from the standard ones in letter case only (legal:
+// PostScript names are case sensitive), with other values.
+func CaseVariantFont(t *sim.Tape) []byte {
+	f := GenFont(t, 3)
+	format := []type1.FileFormat{type1.FormatNoEExec, type1.FormatPFA}[t.Choose(2)]
+	file, err := FontFile(f, format)
+	if err != nil {
+		return nil
+	}
+	at := bytes.Index(file, []byte("/FullName "))
+	if at < 0 {
+		return nil
+	}
+	extra := ""
+	for _, e := range []string{"/Version (9.9) def\n", "/VERSION (8.8) def\n", "/notice (other notice) def\n", "/fullname (Other Full) def\n", "/familyname (Other) def\n",
+		"/weight (Heavy) def\n", "/WEIGHT (Light) def\n", "/italicangle 45 def\n", "/IsFixedPitch true def\n", "/underlineposition -1 def\n", "/Copyright (c1) def\n", "/copyright (c2) def\n"} {
+		if t.Bool(1, 2) {
+			extra += e
+		}
+	}
+	// the dictionary was created with room for 11 entries; PostScript level 2
+	// dictionaries grow, and so do this interpreter's
+	return append(append(append([]byte{}, file[:at]...), extra...), file[at:]...)
+}
